@@ -1,6 +1,7 @@
 import Pyxv.Model.Json
 import Pyxv.Model.Spell
 import Pyxv.Model.SpellRow
+import Pyxv.Model.OpsForm
 /-! Driver operations for the spelling/layout normalisations (property C13). -/
 namespace Pyxv.Spell
 open Lean Pyxv
@@ -66,6 +67,22 @@ def opsSpell (op : String) (j : Json) : Option (Except String Json) :=
       let dl ← getStr j "dl"
       let cells ← (← getArr j "cells").toList.mapM cellOfJson
       pure (Json.arr (kvsToJson (processRow dl cells)).toArray)
+  | "spell.form_raw" => some do
+      -- raw survey sheet (header row + grid of cell texts, "" = empty) and raw settings row through the
+      -- header stage, then the structural pipeline of Pyxv.Rows
+      let hs ← getStrList j "headers"
+      let grid ← (← getArr j "rows").toList.mapM strList
+      let lists ← getStrList j "lists"
+      let sh ← getStrList j "settings_headers"
+      let sv ← getStrList j "settings_values"
+      if !((hs ++ sh).all fun h => h.all lowerSupported) then pure (Json.mkObj [("outcome", "unsupported"), ("why", "header alphabet")]) else
+      let d := hs.any hasDC
+      -- workbook_to_json order: clean_text_values, dealias_and_group_headers, dealias_types
+      let settings := stageRow settingsT (sh.any hasDC) sh (sv.map (cleanText false))
+      let root := (lookup "name".toList settings).getD "data".toList
+      let rows := (headerStage surveyT d hs (grid.map fun r => r.map (cleanText true))).map fun r =>
+        r.map fun kv => if kv.1 = "type".toList then (kv.1, dealiasType kv.2) else kv
+      pure (Form.formModel root lists rows settings)
   | _ => none
 
 end Pyxv.Spell
